@@ -57,7 +57,7 @@ impl Property for C11 {
     }
 
     fn rule(&self) -> &'static str {
-        "case = (table definition, statement without LIMIT [plain / DISTINCT / aggregates incl. COUNT(DISTINCT), PERCENTILE, ARRAY_AGG, STRING_AGG / HAVING / DISTINCT+HAVING], input lines incl. NULL-producing and non-admitted lines and recurring keys, writer cut positions and poll script for the follow run). Checked for EVERY prefix length k: L1 (engine fed line by line) vs a batch FileExecutor world over the first k lines; L2 (real FollowFileExecutor under the schedule): every table on screen is the batch table of some prefix, prefixes never go backwards, the last table is the batch table of all complete lines. Non-trivial iff >=2 lines produced output and the statement keeps cross-line state (aggregate or DISTINCT); distinct by (statement shape, content hash)."
+        "case = (table definition, statement without LIMIT [plain / DISTINCT / aggregates incl. COUNT(DISTINCT), PERCENTILE, ARRAY_AGG, STRING_AGG / HAVING / DISTINCT+HAVING], input lines incl. REAL values sixteen orders of magnitude apart, column names defined twice or called `input`, NULL-producing and non-admitted lines and recurring keys, writer cut positions and poll script for the follow run). Checked for EVERY prefix length k: L1 (engine fed line by line) vs a batch FileExecutor world over the first k lines; L2 (real FollowFileExecutor under the schedule): every table on screen is the batch table of some prefix, prefixes never go backwards, the last table is the batch table of all complete lines. Non-trivial iff >=2 lines produced output and the statement keeps cross-line state (aggregate or DISTINCT); distinct by (statement shape, content hash)."
     }
 
     fn assumptions(&self) -> Vec<String> {
@@ -124,6 +124,14 @@ impl Property for C11 {
                 }
             }
         }
+        // REAL values of very different magnitudes in one group: a sum is then sensitive to every rounding step, so
+        // batch and incremental runs agree only if they perform the same additions in the same order
+        let wide_reals = rng.chance(1, 10);
+        if wide_reals && query.aggregate {
+            let i = query.projections.len();
+            let col = if query.join.is_some() { "t.r" } else { "r" };
+            query.projections.push(format!("{}({}) AS a{}", rng.pick(&["SUM", "SUM", "AVG"]), col, i));
+        }
         let n_lines = if large { rng.range(18, if thorough { 90 } else { 50 }) as usize } else { rng.range(1, 12) as usize };
         let noise_pct = *rng.pick(&[0, 10, 30]);
         let mut lines: Vec<Vec<u8>> = Vec::new();
@@ -135,7 +143,10 @@ impl Property for C11 {
                 let i = rng.below(lines.len());
                 lines.push(lines[i].clone());
             } else {
-                let spec = sqlgen::gen_line_spec(rng, &cfg, &lc);
+                let mut spec = sqlgen::gen_line_spec(rng, &cfg, &lc);
+                if wide_reals && spec.r.is_some() {
+                    spec.r = Some(rng.pick(&["10000000000000000", "-10000000000000000", "1", "3", "0.0000000000000001", "0.0000000000000003", "0.25", "20000000000000000"]).to_string());
+                }
                 lines.push(sqlgen::render_line(&cfg, &spec).into_bytes());
             }
         }
@@ -271,6 +282,7 @@ impl Property for C11 {
             out.nontrivial.push(fnv_mix(fnv(stmt.as_bytes()), fnv(serde_json::to_string(&case["lines"]).unwrap().as_bytes())));
         }
         out.probe("aggregate", aggregate as u64);
+        out.probe("real_values_of_very_different_magnitudes", lines.iter().any(|l| l.windows(17).any(|w| w == b"10000000000000000")) as u64);
         out.probe("column_called_input", defs.contains("=> input TEXT") as u64);
         out.probe("column_name_defined_twice", ["k", "n", "r"].iter().any(|c| defs.split("CREATE TABLE u").next().unwrap_or("").matches(&format!("=> {} ", c)).count() > 1) as u64);
         out.probe("distinct_having", (upper.contains("DISTINCT ") && upper.contains(" HAVING ")) as u64);
